@@ -20,9 +20,11 @@ def gen(tier, rng):
     thorough = tier == "thorough"
     own = [(0, "-"), (1, "-"), (59, "-"), (60, "-"), (119, "-"), (120, "-"), (121, "-"), (300, "-"), (65535, "-"), (300, "0"), (300, "1"), (300, "1000"), (100, "65536"), (70000, "-")]
     adv = list(range(65536)) if thorough else sorted(set([0, 1, 2, 59, 60, 100, 119, 120, 121, 122, 123, 124, 125, 126, 239, 240, 241, 300, 600, 65534, 65535] + [rng.below(65536) for _ in range(60)]))
+    full = {(0, "-"), (119, "-"), (300, "-"), (65535, "-"), (300, "1000")}
     for i, o in enumerate(own):
-        for j in range(0, len(adv), 2048):
-            yield nodegen.c15_interval_script(rng, "interval-%d-%d" % (i, j), [o], adv[j:j + 2048])
+        a = adv if (not thorough or o in full) else sorted(set(adv[::37] + adv[:300] + adv[-300:]))
+        for j in range(0, len(a), 2048):
+            yield nodegen.c15_interval_script(rng, "interval-%d-%d" % (i, j), [o], a[j:j + 2048])
     yield nodegen.c15_timeout_script(rng, "hetero", [60, 300, 130], None, 3 * 300 if thorough else 400)
     yield nodegen.c15_timeout_script(rng, "hetero-ka", [120, 600, 100], None, 700, ka="200")
     for t0 in ([5, 50, 61, 100, 131] if thorough else [20]):
